@@ -217,9 +217,14 @@ def live_oracle(client, c):
         if addr != src:
             hits.append((f"live-wrong-client-address:{client['proto']}",
                          f"a record of the failure names {addr}; the connection that failed came from {src}"))
-        if pname != PROTO_CLASS[client["proto"]]:
+        # the protocol is judged against what the server says it received on this connection (its
+        # access-log line): a client that resets at once may go away before its request line has
+        # arrived, and an empty line IS a (secure) Gopher request for "/".  No access line: not judged.
+        served = c.get("served_by")
+        if served is not None and pname != served:
             hits.append((f"live-wrong-protocol-in-log:{client['proto']}",
-                         f"a record of the failure names protocol {pname}, not {PROTO_CLASS[client['proto']]}"))
+                         f"a record of the failure names protocol {pname}; the server logged the request of this "
+                         f"connection as {served}"))
     if c.get("children"):
         hits.append((f"live-child-left:{client['proto']}", "child processes of the server are still there after the "
                      "connection: " + ", ".join("%s[%s]" % (x[2], x[1]) for x in c["children"])))
